@@ -1,17 +1,50 @@
 // C17 footprint harness.  Built NON-PIE (-no-pie) so that the executable's .data/.bss have the link-time
-// addresses `readelf -S` / `nm` print, and run under `valgrind --tool=lackey --trace-mem=yes` by
-// tools/gen_footprint.py.  Lackey prints addresses, not values, so the markers are *variables*: a store to
-// `vh_begin` opens the window of the next operation, a store to `vh_end` closes it, the two stores to `vh_phase`
-// delimit the op phase (the first one is the first statement of main: static initialisation is over).
+// addresses `readelf -S` / `nm` print.  tools/gen_footprint.py runs it under two instruments:
+//
+//  (L) `valgrind --tool=lackey --trace-mem=yes` (`footprint <group>`): every load/store of the process.  Lackey
+//      prints addresses, not values, so the markers are *variables*: a store to `vh_begin` opens the window of the
+//      next operation, a store to `vh_end` closes it, the two stores to `vh_phase` delimit the op phase (the first
+//      one is the first statement of main: static initialisation is over).
+//  (W) native write-protection (`footprint wp <config>`): at the start of main every page of the executable's
+//      writable static storage is made read-only (mprotect), except the page(s) of the harness's own state `vh_wp`.
+//      A store into static storage then raises SIGSEGV; the handler records the exact address and the operation,
+//      re-opens that page and lets the store proceed; pages are closed again at every window boundary.  "No record"
+//      = "no store at all" (page granularity only limits how many stores of one window are itemised).  Native
+//      speed, so every degree class is affordable (65536, and 2^20 in the thorough tier).  A `canary` operation that
+//      does store into a static proves on every run that the instrument sees stores.
+//
 // In a window exactly one arithmetic API operation is performed on objects that are private to this function
 // (stack / heap).  The translator records, per operation, every store that lands in the executable's writable
-// static storage and the statics that are read.
+// static storage and (L) the statics that are read.
+//
+// FIRST USE.  The property is "immutable after program start", so what has to be observed is the FIRST execution of
+// every operation after static initialisation (a table that is built lazily is written exactly once, by whoever
+// comes first).  Therefore
+//   * one PROCESS per configuration group (L) / per configuration (W): nothing has run before its first op;
+//   * the preparation code between two windows (constructors of the operands, ...) belongs to the footprint too: the
+//     translator attributes every store into static storage that happens between the end of window k-1 and the end of
+//     window k to operation k (only the harness's own bookkeeping `vh_wp` / `vh_sink` is exempt);
+//   * every configuration executes the inverse transform (the only user of the bit-reversal table), and the
+//     configurations run by `run_inv_first` execute it BEFORE any other transform of that type.
+// Configurations = code paths that depend on the degree class and the limb width:
+//   degree <= PERMUT_LIMIT_UNROLL (unrolled permutation): u16/u32/u64 degree 16/32 (full operation list), u64 1024
+//          (largest unrolled), u16 512 (kMaxPolyDegree of 16-bit limbs)
+//   static bit-reversal table, 16-bit indices: u32/u64 degree 2048, u32 degree 32768 (kMaxPolyDegree of 32-bit limbs)
+//   degree > 32768 (32-bit indices; 64-bit limbs only): u64 degree 65536 with 1 and 2 moduli (one shared table),
+//          thorough: u64 degree 2^20 (kMaxPolyDegree)
+// (L) traces group `small` (as before) and `mid` (u64 2048, inverse transform first) in every tier and `big` (u64 65536:
+// construct + inverse transform only, ~40 s of valgrind; degree 32768 costs ~25 s, mostly static initialisation, and is
+// left to (W)) in the thorough tier; (W) runs every configuration.
 //
 // The operation list is printed on stdout (`op <k> <config> <name>`), so the translator needs no second copy.
 #include <cstdint>
 #include <cstdio>
 #include <sstream>
 #include <array>
+#include <signal.h>
+#include <sys/mman.h>
+#include <ucontext.h>
+#include <unistd.h>
 #include <nfl.hpp>
 
 extern "C" {
@@ -19,20 +52,85 @@ volatile uint64_t vh_phase __attribute__((used)) = 0;
 volatile uint64_t vh_begin __attribute__((used)) = 0;
 volatile uint64_t vh_end __attribute__((used)) = 0;
 volatile uint64_t vh_sink __attribute__((used)) = 0;
+volatile uint64_t vh_canary __attribute__((used)) = 0;   // an ordinary static: the canary operation stores into it
+
+// all mutable state of the harness itself: owns its page(s), never write-protected
+struct Hit { uintptr_t addr; unsigned op; unsigned in_window; };
+struct alignas(4096) VhWp {
+  unsigned k;                        // index of the next operation
+  int on;                            // write-protection instrument active
+  int in_window;
+  unsigned nhits, nopen, dropped;
+  uint64_t sink;
+  uintptr_t lo, hi;                  // page-aligned cover of [__data_start, _end)
+  std::vector<std::string>* names;   // heap object; the pointer is written before the op phase only
+  Hit hits[4096];
+  uintptr_t open[4096];
+  char pad[4096];
+};
+VhWp vh_wp __attribute__((used));
+extern char __data_start[], _end[];
 }
 
-static unsigned g_k = 0;
-static std::vector<std::string>* g_names;  // heap object: stores to it are not static stores; the pointer is only written outside op windows
+static inline bool own_page(uintptr_t pg) {
+  return pg + 4096 > (uintptr_t)&vh_wp && pg < (uintptr_t)&vh_wp + sizeof(vh_wp);
+}
+static void wp_protect_all() {
+  for (uintptr_t pg = vh_wp.lo; pg < vh_wp.hi; pg += 4096)
+    if (!own_page(pg)) mprotect((void*)pg, 4096, PROT_READ);
+}
+static void wp_unprotect_all() {
+  mprotect((void*)vh_wp.lo, vh_wp.hi - vh_wp.lo, PROT_READ | PROT_WRITE);
+}
+static void wp_close_pages() {
+  for (unsigned i = 0; i < vh_wp.nopen; i++) mprotect((void*)vh_wp.open[i], 4096, PROT_READ);
+  vh_wp.nopen = 0;
+}
+static void wp_handler(int, siginfo_t* si, void* uc_) {
+  uintptr_t a = (uintptr_t)si->si_addr;
+  ucontext_t* uc = (ucontext_t*)uc_;
+  bool is_write = uc->uc_mcontext.gregs[REG_ERR] & 2;
+  if (!vh_wp.on || !is_write || a < vh_wp.lo || a >= vh_wp.hi) {   // a genuine crash
+    signal(SIGSEGV, SIG_DFL);
+    return;
+  }
+  if (a >= (uintptr_t)__data_start && a < (uintptr_t)_end) {        // (.got.plt of lazy binding shares the first page)
+    if (vh_wp.nhits < 4096) {
+      vh_wp.hits[vh_wp.nhits].addr = a;
+      vh_wp.hits[vh_wp.nhits].op = vh_wp.k;
+      vh_wp.hits[vh_wp.nhits].in_window = vh_wp.in_window;
+      vh_wp.nhits++;
+    } else vh_wp.dropped++;
+  }
+  uintptr_t pg = a & ~(uintptr_t)4095;
+  mprotect((void*)pg, 4096, PROT_READ | PROT_WRITE);
+  if (vh_wp.nopen < 4096) vh_wp.open[vh_wp.nopen++] = pg;          // (else it stays open: only itemisation suffers)
+}
+static void wp_start() {
+  vh_wp.lo = (uintptr_t)__data_start & ~(uintptr_t)4095;
+  vh_wp.hi = ((uintptr_t)_end + 4095) & ~(uintptr_t)4095;
+  struct sigaction sa;
+  memset(&sa, 0, sizeof sa);
+  sa.sa_sigaction = wp_handler;
+  sa.sa_flags = SA_SIGINFO | SA_NODEFER;
+  sigaction(SIGSEGV, &sa, nullptr);
+  vh_wp.on = 1;
+  wp_protect_all();
+}
+static inline void set_sink(uint64_t v) { if (vh_wp.on) vh_wp.sink = v; else vh_sink = v; }
 
+// window k = [end of window k-1, end of window k): preparation + the operation itself
 #define OP(cfg, name, ...)                                    \
   do {                                                        \
-    unsigned k_ = g_k++;                                      \
-    g_names->push_back(std::string(cfg) + " " + (name));      \
-    vh_begin = k_;                                             \
+    vh_wp.names->push_back(std::string(cfg) + " " + (name));  \
+    if (vh_wp.on) { wp_close_pages(); vh_wp.in_window = 1; }  \
+    else vh_begin = vh_wp.k;                                  \
     asm volatile("" ::: "memory");                            \
     { __VA_ARGS__; }                                          \
     asm volatile("" ::: "memory");                            \
-    vh_end = k_;                                               \
+    if (vh_wp.on) { wp_close_pages(); vh_wp.in_window = 0; }  \
+    else vh_end = vh_wp.k;                                    \
+    vh_wp.k++;                                                \
   } while (0)
 
 template <class T, size_t D, size_t M>
@@ -105,7 +203,7 @@ static void run_cfg(const char* cfg) {
   }
   for (auto& z : arr) mpz_clear(z);
   delete a; delete b; delete c; delete s;
-  vh_sink = r;  // keep `r` alive (outside any window)
+  set_sink(r);  // keep `r` alive (outside any window)
 }
 
 // transform-only configuration (degree > PERMUT_LIMIT_UNROLL: the bit-reversal uses the static table permut<>::P)
@@ -121,17 +219,83 @@ static void run_big(const char* cfg) {
   delete a; delete b; delete c;
 }
 
-int main() {
-  g_names = new std::vector<std::string>;
-  g_names->reserve(1024);
-  vh_phase = 1;  // main reached: static initialisation is over
-  // degree >= 16 so that every SIMD backend instantiates (16 uint16_t lanes with AVX2)
-  run_cfg<uint32_t, 16, 2>("u32_16_2");
-  run_cfg<uint64_t, 16, 2>("u64_16_2");
-  run_cfg<uint16_t, 16, 1>("u16_16_1");
-  run_cfg<uint64_t, 32, 3>("u64_32_3");
-  run_big<uint32_t, 2048, 1>("u32_2048_1");
-  vh_phase = 2;  // end of the op phase
-  for (size_t k = 0; k < g_names->size(); k++) printf("op %zu %s\n", k, (*g_names)[k].c_str());
+// inverse transform FIRST (before any forward transform / product of that type), then optionally the rest
+template <class T, size_t D, size_t M>
+static void run_inv_first(const char* cfg, bool rest) {
+  using P = nfl::poly<T, D, M>;
+  P* a = nullptr;
+  OP(cfg, "construct_list", a = new P{(T)1, (T)2, (T)3, (T)4});
+  OP(cfg, "invntt_pow_invphi", a->invntt_pow_invphi());
+  if (rest) {
+    P* b = nullptr;
+    P* c = nullptr;
+    OP(cfg, "construct_default", c = new P);
+    OP(cfg, "construct_value", b = new P((T)7));
+    OP(cfg, "ntt_pow_phi", a->ntt_pow_phi(); b->ntt_pow_phi());
+    OP(cfg, "mul", *c = *a * *b);
+    OP(cfg, "add", *c = *c + *b);
+    OP(cfg, "invntt_pow_invphi_2", c->invntt_pow_invphi());
+    OP(cfg, "eq", set_sink(*a == *b));
+    delete b; delete c;
+  }
+  delete a;
+}
+
+struct CfgEntry { const char* name; const char* group; void (*fn)(const char*); };
+template <class T, size_t D, size_t M> static void full_cfg(const char* c) { run_cfg<T, D, M>(c); }
+template <class T, size_t D, size_t M> static void big_cfg(const char* c) { run_big<T, D, M>(c); }
+template <class T, size_t D, size_t M> static void invfirst_cfg(const char* c) { run_inv_first<T, D, M>(c, true); }
+template <class T, size_t D, size_t M> static void invonly_cfg(const char* c) { run_inv_first<T, D, M>(c, false); }
+
+// Which configurations are compiled in is chosen by the translator (-DFP_SMALL / -DFP_MID / -DFP_BIG / -DFP_HUGE): static
+// initialisation of every instantiated type runs (and is traced) in every process of that executable.
+static const CfgEntry kCfgs[] = {
+#ifdef FP_SMALL
+    // degree >= 16 so that every SIMD backend instantiates (16 uint16_t lanes with AVX2)
+    {"u32_16_2", "small", full_cfg<uint32_t, 16, 2>},
+    {"u64_16_2", "small", full_cfg<uint64_t, 16, 2>},
+    {"u16_16_1", "small", full_cfg<uint16_t, 16, 1>},
+    {"u64_32_3", "small", full_cfg<uint64_t, 32, 3>},
+    {"u32_2048_1", "small", big_cfg<uint32_t, 2048, 1>},
+#endif
+#ifdef FP_MID
+    {"u64_2048_2", "mid", invfirst_cfg<uint64_t, 2048, 2>},
+#endif
+#ifdef FP_WPONLY
+    {"u32_32768_1", "wponly", invfirst_cfg<uint32_t, 32768, 1>},
+    {"u64_2048_1", "wponly", full_cfg<uint64_t, 2048, 1>},
+    {"u64_1024_1", "wponly", invfirst_cfg<uint64_t, 1024, 1>},
+    {"u16_512_1", "wponly", invfirst_cfg<uint16_t, 512, 1>},
+    {"u64_65536_2", "wponly", invfirst_cfg<uint64_t, 65536, 2>},
+    {"u64_65536_1f", "wponly", full_cfg<uint64_t, 65536, 1>},
+#endif
+#ifdef FP_BIG
+    {"u64_65536_1", "big", invonly_cfg<uint64_t, 65536, 1>},
+#endif
+#ifdef FP_HUGE
+    {"u64_1048576_1", "huge", invfirst_cfg<uint64_t, 1048576, 1>},
+#endif
+};
+
+int main(int argc, char** argv) {
+  std::string a1 = argc > 1 ? argv[1] : "small", a2 = argc > 2 ? argv[2] : "";
+  if (a1 == "list") {
+    for (auto& c : kCfgs) printf("cfg %s %s\n", c.name, c.group);
+    return 0;
+  }
+  vh_wp.names = new std::vector<std::string>;
+  vh_wp.names->reserve(1024);
+  bool wp = a1 == "wp";
+  if (wp) wp_start(); else vh_phase = 1;  // main reached: static initialisation is over
+  unsigned ran = 0;
+  for (auto& c : kCfgs)
+    if (wp ? a2 == c.name : a1 == c.group) { c.fn(c.name); ran++; }
+  if (wp) OP(a2.c_str(), "canary", vh_canary = vh_canary + 1);
+  if (wp) { vh_wp.on = 0; wp_unprotect_all(); } else vh_phase = 2;  // end of the op phase
+  if (!ran) { fprintf(stderr, "nothing to run for %s %s\n", a1.c_str(), a2.c_str()); return 2; }
+  for (size_t k = 0; k < vh_wp.names->size(); k++) printf("op %zu %s\n", k, (*vh_wp.names)[k].c_str());
+  for (unsigned i = 0; i < vh_wp.nhits; i++)
+    printf("wp %u %lu %u\n", vh_wp.hits[i].op, (unsigned long)vh_wp.hits[i].addr, vh_wp.hits[i].in_window);
+  if (wp) printf("wpend %u %u\n", vh_wp.nhits, vh_wp.dropped);
   return 0;
 }
